@@ -56,6 +56,21 @@ func main() {
 
 	var jobs []job
 	if f.Replay != "" {
+		// seed-dependent scenarios are named after the seed of the run that found them
+		if raw, err := os.ReadFile(f.Replay); err == nil {
+			var doc struct {
+				Seed *uint64 `json:"seed"`
+				Tier string  `json:"tier"`
+			}
+			if json.Unmarshal(raw, &doc) == nil {
+				if doc.Seed != nil {
+					f.Seed = *doc.Seed
+				}
+				if doc.Tier == "thorough" || doc.Tier == "quick" {
+					f.Tier = doc.Tier
+				}
+			}
+		}
 		jobs = replayJobs(f, res)
 	} else {
 		jobs = allJobs(f)
